@@ -502,6 +502,17 @@ let c20 op a =
       else if List.for_all2 (fun v t -> has_type env v t) vs ts then "(ok)" else "(not-an-inhabitant)"
   | _ -> "(unknown-op " ^ op ^ ")"
 
+(* ---------- C18 ---------- *)
+let c18 op a =
+  match a with
+  | [_; e; item; want; renv; rty] ->
+      if item = "#compile" then "(ok)" else
+      if rty = "(missing)" then "(item-missing)" else
+      let env = env_of e in
+      let renv = List.map (fun d -> match d with L [n; t] -> (unhex (atom n), ty_of t) | _ -> failwith "renv") (items (parse_sx renv)) in
+      if eq_dec (env @ renv) (ty_of (parse_sx want)) (ty_of (parse_sx rty)) then "(ok)" else "(differs)"
+  | _ -> "(unknown-op " ^ op ^ ")"
+
 let dispatch (op : string) (a : string list) : string =
   let base = if String.length op > 2 && String.sub op 0 2 = "m." then String.sub op 2 (String.length op - 2) else op in
   let prop = try String.sub base 0 (String.index base '.') with Not_found -> base in
@@ -516,6 +527,7 @@ let dispatch (op : string) (a : string list) : string =
   | "c13" | "c14" -> c14 op a
   | "c15" -> c15 op a
   | "c17" | "c19" -> c17 op a
+  | "c18" -> c18 op a
   | "c20" -> c20 op a
   | "c16" -> c16 op a
   | _ -> "(unknown-op " ^ op ^ ")"
